@@ -279,7 +279,27 @@ impl TerminalRenderer {
         // - Replace glyphs with images in the front buffer
         // - Erase changed images
         // - Record images that we need to render
+        let width = self.front.width();
+        let mut wide_shadow: Option<(Position, Face)> = None;
         for ((pos, old), new) in self.back.iter().with_position().zip(self.front.iter_mut()) {
+            // Cell covered by the second half of a visible wide character is not
+            // visible itself, replace it with zero-width filler, so it is never
+            // rendered on its own and a change of the wide character always
+            // invalidates it.
+            if let Some((shadow_pos, face)) = wide_shadow.take() {
+                if shadow_pos == pos {
+                    *new = Cell::new_char(face, '\0');
+                }
+            }
+            if let CellKind::Char(character) = &new.kind {
+                if character.width() == Some(2)
+                    && pos.col + 1 < width
+                    && self.marks.get(pos) != Some(&CellMark::Ignored)
+                {
+                    wide_shadow = Some((Position::new(pos.row, pos.col + 1), new.face));
+                }
+            }
+
             // replace glyphs with images
             if let CellKind::Glyph(glyph) = &new.kind {
                 let image = match self.glyph_cache.get(new) {
